@@ -1,10 +1,11 @@
+\* the design reporting 'finished' after the lock is released must violate CallbacksSerial
 CONSTANTS
   Part = "shared"
   G = {"g1", "g2", "g3"}
   Programs <- ProgShared
-  NExch = 2  WholeCall = TRUE  Locked = TRUE  NotifyInside = TRUE
+  NExch = 2  WholeCall = TRUE  Locked = TRUE  NotifyInside = FALSE
   V = {"v1"} DocOf <- DocOf1 SignTime <- SignTimeAB ValidAt <- ValidAtAB PerCallContext = TRUE
   C = {"c1"}
 INIT Init
 NEXT Next
-INVARIANTS Mutex NoInterleaving Linearizable CallbacksSerial
+INVARIANTS CallbacksSerial
